@@ -8,7 +8,8 @@ passed in, so (seed, index) replays a case exactly.
 
 import math
 
-STEPS = [600, 1200, 1800, 3600]
+# sub-hourly loggers, hourly gauges, and coarse records: 3-hourly, 6-hourly, daily and two-daily totals
+STEPS = [600, 1200, 1800, 3600, 600, 1200, 1800, 3600, 300, 10800, 21600, 86400, 172800]
 THRESHOLDS = [0.5, 1.0, 2.0, 4.0, 5.0, 8.0]
 
 
